@@ -51,6 +51,8 @@ def run(tier):
     # yy_switch_to_buffer(saved) from yywrap() or from the <<EOF>> action - resuming a buffer that was left partly consumed
     # (round-4 seed C10-r4m1), and in-memory sources (yy_scan_string/bytes) continued with yyrestart / a new yyin, which is also what
     # yylex() does itself when yywrap() returns 0 at the end of a string (round-4 seed C10-r4m2)
+    # these histories leave buffers behind: they run on the ledger allocator, which releases an execution's memory when it ends
+    LEDGER = dict(options=["noyyalloc", "noyyrealloc", "noyyfree"], cdefs=["VF_LEDGER"])
     MASK_SAVED = MASK | (1 << 1) | (1 << 4)
     MASK_MEM = MASK | (1 << 7) | (1 << 8)
     for api in ("NR", "R", "C99"):
@@ -60,11 +62,11 @@ def run(tier):
                 kn = {"VF_BUDGET_DEFAULT": nd, "VF_BUDGET_TOTAL": nd, "VF_CALLMASK": MASK_SAVED, "VF_MAX_OPS": 2, "VF_SAVED_SWITCH": 1}
                 if ro:
                     kn["VF_READ_ONE"] = ro
-                jobs.append(BH.make_job(api, a, kn, "eof-saved-%s-%d-%s" % (api, len(a), ro), sources=srcs))
+                jobs.append(BH.make_job(api, a, kn, "eof-saved-%s-%d-%s" % (api, len(a), ro), sources=srcs, **LEDGER))
                 kn = {"VF_BUDGET_DEFAULT": nd, "VF_BUDGET_TOTAL": nd, "VF_CALLMASK": MASK_MEM, "VF_MAX_OPS": 3, "VF_RESTART_MEM": 1}
                 if ro:
                     kn["VF_READ_ONE"] = ro
-                jobs.append(BH.make_job(api, a, kn, "eof-mem-%s-%d-%s" % (api, len(a), ro), sources=srcs))
+                jobs.append(BH.make_job(api, a, kn, "eof-mem-%s-%d-%s" % (api, len(a), ro), sources=srcs, **LEDGER))
     # full and fast tables take other end-of-buffer paths
     for fa in (["-Cf"], ["-CFe"], ["-B"]):
         kn = {"VF_BUDGET_DEFAULT": dev, "VF_BUDGET_TOTAL": dev, "VF_CALLMASK": MASK, "VF_MAX_OPS": 2, "VF_READ_ONE": 1}
